@@ -31,6 +31,13 @@ EXHAUSTIVE_THOROUGH = [
 EXHAUSTIVE_PREFIX = [("2 1 / X:0 / P:1:n:0:0 D:0 ; P:0:n:0:0 D:0", 60000)]
 
 HAND = [
+    # one poster, one kind (interrupt), with and without id: must run in post order
+    ("2 1 / / P:1:i:0:0 P:1:i:-:0 P:1:i:0:0 ; D:0 D:0", ["0" * 11 + "1" * 30, "0" * 4 + "1" * 2 + "0" * 7 + "1" * 30]),
+    ("2 1 / / P:1:n:0:0 P:1:i:-:0 P:1:i:0:0 P:1:n:-:0 ; D:0 D:0", ["0" * 14 + "1" * 40]),
+    # three threads share an id: two callbacks of it run on threads 1 and 2 while thread 0 cancel-and-waits
+    ("3 1 / / P:1:n:0:0 P:2:n:0:0 W:0 ; D:0 ; D:0", ["0" * 8 + "1111" + "2222" + "00" + "012" * 20, "0" * 8 + "2222" + "1111" + "000" + "012" * 20]),
+    # interrupt callback posted while an interrupt batch runs, normal callbacks already queued
+    ("2 1 / P:1:i:-:0 ; / P:1:n:-:1 P:1:i:-:0 P:1:n:-:1 P:1:n:-:1 ; D:0", ["0" * 9 + "1" * 40, "0" * 9 + "1" * 5 + "0" * 3 + "1" * 40]),
     # a cancelled callback is SKIPPED on thread 0; later thread 0 (outside any callback) cancel-and-waits on the id
     # while thread 1 runs a callback of it: must wait (count 1 is not thread 0's own dispatch)
     ("2 1 / / D:0 P:1:n:0:0 W:0 ; P:0:n:0:0 C:0 D:0", ["11111" + "00000" + "0000" + "1111" + "00" + "01" * 20,
